@@ -65,6 +65,8 @@ def generate(tier, seed):
     dcells = [[own, dot, d] for own in range(6) for dot in range(5) for d in (0, 1)]
     cases.append({"kind": "dep5", "cells": dcells, "base": 0})
     cases.append({"kind": "conflict"})
+    for k in range(4 if tier == "quick" else 40):
+        cases.append({"kind": "meson", "k": k})
     return cases
 
 
@@ -221,6 +223,8 @@ def run_case(case, ctx):
     res = Res()
     if case["kind"] == "conflict":
         return run_conflict(case, ctx, res)
+    if case["kind"] == "meson":
+        return run_meson(case, ctx, res)
     if case["kind"] == "dep5":
         return run_dep5(case, ctx, res)
     root = ctx.scratch / f"c04-{case['base']}"
@@ -342,6 +346,56 @@ def run_dep5(case, ctx, res):
             if d and (own in (1, 2, 3) or dot in (2, 3, 4)):
                 res.nsig += 1
             res.cell("dep5-cell")
+    finally:
+        shutil.rmtree(root, ignore_errors=True)
+    return res.out()
+
+
+def run_meson(case, ctx, res):
+    """The chain of REUSE.toml files also holds inside a Meson subproject once it is included: its own REUSE.toml is the
+    deepest link (override there hides the file's header, closest there supplies what the file lacks)."""
+    root = ctx.scratch / f"c04-meson-{case['k']}"
+    sp = root / "subprojects" / "libx"
+    (sp / "deep").mkdir(parents=True)
+    try:
+        outer = case["k"] % 2 == 0
+        if outer:
+            (root / "REUSE.toml").write_text('version = 1\n[[annotations]]\npath = "**/*.c"\nprecedence = "aggregate"\nSPDX-FileCopyrightText = "1998 Outer"\n')
+        (sp / "REUSE.toml").write_text('version = 1\n[[annotations]]\npath = "over.c"\nprecedence = "override"\nSPDX-FileCopyrightText = "2001 Sub Override"\n'
+                                       'SPDX-License-Identifier = "LicenseRef-sub-override"\n\n[[annotations]]\npath = "deep/near.c"\nprecedence = "closest"\n'
+                                       'SPDX-License-Identifier = "LicenseRef-sub-closest"\n')
+        (sp / "over.c").write_text("// SPDX-FileCopyrightText: 2000 Own\n// SPDX-License-Identifier: LicenseRef-own\nint o;\n")
+        (sp / "deep" / "near.c").write_text("// SPDX-FileCopyrightText: 2000 Own Near\nint n;\n")
+        (root / "top.c").write_text("// SPDX-FileCopyrightText: 2000 Top\n// SPDX-License-Identifier: LicenseRef-top\nint t;\n")
+        for include in (True, False):
+            args = ["--no-multiprocessing", "--root", str(root)] + (["--include-meson-subprojects"] if include else []) + ["lint", "--json"]
+            r = run_cli(args, cwd=str(root))
+            res.n += 1
+            if r.escaped:
+                res.violation("escaped-exception", f"{r.exc_type}", tb=r.exc_tb)
+                continue
+            by = {f["path"]: observed_items(f) for f in json.loads(r.stdout)["files"]}
+            if not include:
+                extra = [p for p in by if p.startswith("subprojects/libx/")]
+                if extra:
+                    res.violation("meson-subproject-examined-without-option", f"{extra} reported although the option was not given")
+                continue
+            o = by.get("subprojects/libx/over.c")
+            n = by.get("subprojects/libx/deep/near.c")
+            if o is None or n is None:
+                res.violation("meson-subproject-file-missing", "files of the included subproject are not reported", got=sorted(by))
+                continue
+            src = "subprojects/libx/REUSE.toml"
+            want_o = {("c", "2001 Sub Override", src, "reuse-toml"), ("l", "LicenseRef-sub-override", src, "reuse-toml")}
+            if not want_o <= o or any(i[2].endswith("over.c") for i in o):
+                res.violation("override-in-subproject-REUSE.toml-not-applied", f"over.c: items {sorted(o)}; expected the override of {src} and nothing of the file itself")
+            want_n = {("c", "SPDX-FileCopyrightText: 2000 Own Near", "subprojects/libx/deep/near.c", "file-header"), ("l", "LicenseRef-sub-closest", src, "reuse-toml")}
+            if outer:
+                want_n.add(("c", "1998 Outer", "REUSE.toml", "reuse-toml"))
+            if n != want_n:
+                res.violation("closest-in-subproject-REUSE.toml-not-applied", f"near.c: items {sorted(n)}; expected {sorted(want_n)}")
+            res.nsig += 1
+            res.cell("meson-chain")
     finally:
         shutil.rmtree(root, ignore_errors=True)
     return res.out()
